@@ -24,6 +24,7 @@ def run(chk):
     r19d(chk)
     r19e(chk)
     r19f(chk)
+    r19g(chk)
 
 
 def _replace_functions(m):
@@ -324,3 +325,55 @@ def r19f(chk, rid='R19.f'):
         if isinstance(res, Raised) or back != u:
             bad.append(f'set {u!r}, read {back!r}' + (f' ({res!r})' if isinstance(res, Raised) else ''))
     chk.ob(rid, rel, 'URIValue._setUri', f'all {len(urls)} URLs are read back exactly as they were set', not bad, '; '.join(bad[:3]) + ' - replaceUrls with the identity (and the path re-basing of resolveImports, which keeps absolute URLs) changes such URLs')
+
+
+def r19g(chk, rid='R19.g'):
+    chk.rule(rid, 'every @import target is fetched once through the parent sheet, decided by evaluation: CSSImportRule._setHref is evaluated on its syntax tree for a rule inside an import chain whose ancestors were written with the same relative href (resolving to other files): the parent sheet\'s _resolveImport is called exactly once with the href resolved against the parent sheet\'s location; text that arrives makes the target available (hrefFound) and is handed to the new sheet with the encoding override (type 0) or the found encoding (types 1-4); a target that cannot be read leaves the rule unresolved without raising')
+    import urllib.parse
+
+    from sa.absint import Evaluator, Obj, Raised, Record, _Raise
+
+    rel = 'cssutils/css/cssimportrule.py'
+    m = chk.repo.mod(rel)
+    fn = m.get('CSSImportRule._setHref')
+    for label, enctype, cssText, parent_href in (
+        ('override', 0, 'a{}', 'http://h/css/site.css'), ('transport charset', 1, 'a{}', 'http://h/css/site.css'), ('BOM/@charset', 3, 'a{}', 'http://h/css/vendor/vendor.css'),
+        ('utf-8 default', 5, 'a{}', 'http://h/css/site.css'), ('unreadable target', 1, None, 'http://h/css/site.css'), ('failing fetch', 1, 'raise', 'http://h/css/site.css'),
+    ):
+        fetched, handed = [], []
+
+        def resolve(url):
+            fetched.append(url)
+            if cssText == 'raise':
+                raise _Raise('OSError')
+            return ('enc', enctype, cssText)
+
+        class SheetM(Obj):
+            pass
+
+        def newsheet(**k):
+            sh = SheetM(_href=None, **k)
+            sh._setFetcher = lambda f: None
+            sh._setCssTextWithEncodingOverride = lambda text_, encodingOverride=None, encoding=None: handed.append((text_, encodingOverride, encoding))
+            return sh
+
+        # ancestors in the import chain were written with the same relative href
+        grand = Obj(href='http://h/css/site.css', ownerRule=None, _fetcher='F')
+        owner = Obj(href='vendor/vendor.css', _href='vendor/vendor.css', parentStyleSheet=grand)
+        parent = Obj(href=parent_href, ownerRule=owner, _resolveImport=resolve, _fetcher='F')
+        me = Obj(_href=None, seq=[Record(type='href', line=1, col=1)], _seq=[None], media='M', name='N', parentStyleSheet=parent, hrefFound=None, _styleSheet=None,
+                 _log=Record(warn=lambda *a, **k: None))
+        intr = {'cssutils': Record(css=Record(CSSStyleSheet=newsheet), helper=Record(path2url=lambda p: 'file://' + p)), 'os': Record(getcwd=lambda: '/cwd'),
+                'urllib': Record(parse=Record(urljoin=urllib.parse.urljoin)), 'self._log.warn': me._log.warn}
+        res = Evaluator(fn, intrinsics=intr, module=m, cls='CSSImportRule').run(self=me, href='vendor/vendor.css')
+        want_url = urllib.parse.urljoin(parent_href, 'vendor/vendor.css')
+        ok = not isinstance(res, Raised) and fetched == [want_url]
+        if cssText in (None, 'raise'):
+            ok = ok and me.hrefFound is False and not handed
+            want = 'fetched once, rule left unresolved'
+        else:
+            want_hand = [('a{}', 'enc' if enctype == 0 else None, 'enc' if 0 < enctype < 5 else None)]
+            ok = ok and me.hrefFound is True and handed == want_hand and getattr(me._styleSheet, '_href', None) == want_url
+            want = f'fetched once; text and encodings handed on as {want_hand}'
+        chk.ob(rid, rel, 'CSSImportRule._setHref', f'{label} (encoding type {enctype}): {want}', ok,
+               f'fetched {fetched} (prescribed [{want_url!r}]), hrefFound={me.hrefFound!r}, handed on {handed}' + (f', {res!r}' if isinstance(res, Raised) else ''))
